@@ -12,4 +12,6 @@ pub mod expr;
 pub mod instruction;
 pub mod parser;
 pub mod utility;
+#[cfg(feature = "verif")]
+pub mod verif;
 pub mod writer;
